@@ -504,6 +504,12 @@ func vgRunFilterLemma(familyIndex int) {
 	if verifKnown("F6d-everything-excluded", filter.classEverythingExcluded()) {
 		return
 	}
+	if filter.classEverythingExcluded() {
+		// nothing is left: an image cannot be empty, so this is an error - never the unfiltered image (F6d)
+		verifCover("everything excluded")
+		verifAssert(err != nil, "a filter that removes every file is an error, never the unfiltered image")
+		return
+	}
 	if verifKnown("F6f-request-type-marked-excluded", filter.classRequestTypeMarkedExcluded()) {
 		return
 	}
